@@ -196,7 +196,7 @@ class World:
             elif op == 'ent_remove':
                 e.remove()
             elif op == 'set_class':
-                e['classname'] = c(a['v'])
+                e[a.get('ck', 'classname')] = c(a['v'])
             elif op == 'set_name':
                 e[a['k']] = c(a['v'])
             elif op == 'update':
@@ -418,7 +418,7 @@ def random_histories(out: hlib.RecWriter, rng: random.Random, n_hist: int, lengt
                 rng.shuffle(xs)
                 a = {'op': 'add_ents', 'xs': xs[:rng.randint(0, 4)]}
             elif op == 'set_class':
-                a = {'op': op, 'x': x, 'v': rng.choice(classes)}
+                a = {'op': op, 'x': x, 'v': rng.choice(classes), 'ck': 'classname' if easy else rng.choice(['classname', 'ClassName', 'CLASSNAME'])}
             elif op == 'set_name':
                 a = {'op': op, 'x': x, 'v': rng.choice(names if easy else names + ['']), 'k': k}
             elif op == 'update':
@@ -505,7 +505,7 @@ def main() -> None:
         out = hlib.RecWriter(sys.argv[3])
         if rec['k'] == 'state':
             rec = dict(rec)
-            rec.setdefault('sig', {'kind': 'parse', 'action': 'parse'})
+            rec['sig'] = {'kind': 'parse', 'action': 'parse'}
             vmf = VMF.parse(Keyvalues.parse(rec['doc']))
             w = World([f'e{i + 1}' for i in range(len(vmf.entities))])
             w.maps = {'m1': vmf}
@@ -517,7 +517,7 @@ def main() -> None:
             out.write({'k': 'state', 'post': project_single(w), 'F': w.fold_table(), 'sig': rec['sig'], 'doc': rec['doc']})
         else:
             tab = CONCRETE[rec['tab']] if isinstance(rec.get('tab'), int) else (rec.get('tab') or {})
-            src = rec['sig'].get('kind', 'edge')
+            src = rp.get('kind', 'edge')
             if 'hist' in rec:
                 w = World(sorted({a.get(f) for a in rec['hist'] for f in ('x', 'p') if a.get(f)}
                                  | {x for a in rec['hist'] for x in a.get('xs', [])}
